@@ -6,8 +6,18 @@ import sys
 import traceback
 
 
+def _dec(o):
+    if isinstance(o, dict) and set(o) == {"__bytes__"}:
+        return bytes(o["__bytes__"])
+    if isinstance(o, list):
+        return [_dec(x) for x in o]
+    if isinstance(o, dict):
+        return {k: _dec(v) for k, v in o.items()}
+    return o
+
+
 def main():
-    req = json.load(sys.stdin)
+    req = _dec(json.load(sys.stdin))
     from lib import hx
     mod = importlib.import_module(req["module"])
     fn = getattr(mod, req["fn"])
